@@ -391,3 +391,12 @@ case(C + "as_tuple", params={"xs": List(INT)}, returns=TupleOf(INT), locals={"t"
      ensures={"same": "len(result) == len(xs) and all(result[i] == xs[i] for i in range(len(xs)))", "kind": "isinstance(result, tuple)"},
      canaries={"list": "isinstance(result, list)", "eq-list": "result == xs"},
      gen=lambda rng: {"xs": ints(rng)})
+
+# ---- len() of a set: uninterpreted cardinality with sound partial facts --------------------------------------------------------------------------
+case(C + "count_distinct", params={"xs": List(INT)}, returns=INT,
+     ensures={"ub": "0 <= result and result <= len(xs)", "distinct": "implies(distinct(xs), result == len(xs))", "zero": "iff(result == 0, len(xs) == 0)"},
+     canaries={"len": "result == len(xs)", "one": "implies(len(xs) > 0, result == 1)"},
+     gen=lambda rng: {"xs": ints(rng, a=0, b=2)})
+case(C + "is_single", params={"s": Set(INT)}, returns=BOOL,
+     ensures={"v": "result == (s == set())"}, canaries={"t": "result", "f": "not result"},
+     gen=lambda rng: {"s": rng.sample(range(3), rng.randint(0, 2))}, build=lambda d: {"s": set(d["s"])})
